@@ -217,7 +217,8 @@ Qed.
 Lemma rmdir_spec : forall root p root', wf_node root = true -> rmdir root p = FOk root' ->
   wf_node root' = true /\ forall cs, file_at root' cs = file_at root cs.
 Proof.
-  intros root p root' W H. unfold rmdir, parent_and_name in H.
+  intros root p0 root' W H. unfold rmdir, parent_and_name in H. cbv zeta in H.
+  generalize dependent (mkdir_path p0). intros p H.
   destruct (rsplit p) as [[h name]|]; [|discriminate].
   destruct (locate root (components h)) as [[x|es]| |] eqn:Eh; try discriminate.
   destruct (alookup name es) as [[y|[|e0 es']]|] eqn:Ea; try discriminate. inv H.
